@@ -23,6 +23,7 @@ FLOATS = ["0000000000000000", "8000000000000000", "3ff0000000000000", "bff800000
           "000fffffffffffff", "0010000000000000"]
 F32 = ["00000000", "80000000", "3f800000", "7f800000", "ff800000", "7fc00000", "00000001", "007fffff", "00800000", "7f7fffff", "c0490fdb"]
 CHARS = [0, 97, -1, 0x10FFFF, 2**31-1, -2**31, 0xD800]
+RAWS = [b"{\"a\":1}\n", b" [1, 2]", b"\t", b"null ", b"\r\n\"s\"\r\n", b"\xc2\xa0 1", b"\x0b[]\x0c", b"{\"k\": \"v\"}"]      # raw JSON messages, with white space around
 STRS = [b"", b"a", b"hello world", b"\xff\xfe", "héllo€".encode(), b"\x00", b"<tag>&"]
 KEYS = [b"", b"a", b"b", b"key", b"\xff", "ü".encode(), b"__module_name__"]
 
@@ -59,7 +60,7 @@ def gen_pvalue(rng, depth, plain=True):
             if k == 0: i = rng.randrange(1, 4); return ["e", str(i), hexs(b"error"), hexs(STRS[i])]
             if k == 1: return ["fn", hexs(b"f%d" % rng.randrange(3))]
             if k == 2: return ["o", hexs(b"time"), hexs(time_payload(rng).encode())]
-            if k == 3: return ["o", hexs(b"rawMessage"), hexs(rng.choice(STRS))]
+            if k == 3: return ["o", hexs(b"rawMessage"), hexs(rng.choice(STRS + RAWS))]
             return ["o", hexs(b"location"), hexs(b"UTC")]
         return gen_scalar(rng)
     n = rng.choice([0, 0, 1, 2, 3])
@@ -100,7 +101,7 @@ def gen_goval(rng, depth, canonical=False):
             if t == "time.Time": return ["reg", hexs(t), hexs(time_payload(rng).encode())]
             if t == "*time.Time": return ["reg", hexs(t), rng.choice(["nil", hexs(time_payload(rng).encode())])]
             if t == "*time.Location": return ["reg", hexs(t), rng.choice(["nil", hexs(b"UTC")])]
-            return ["reg", hexs(t), rng.choice(["nil"] + [hexs(s) for s in STRS])]
+            return ["reg", hexs(t), rng.choice(["nil"] + [hexs(s) for s in STRS + RAWS])]
         if k == 21: return ["other", hexs(rng.choice(["main.otherType", "*main.otherType", "complex128", "[]int", "map[int]string", "chan int", "struct {}", "[]string"]))]
         if k == 22: return ["obj", gen_pvalue(rng, 1, plain=False)]
         return ["oslice"] + ([gen_pvalue(rng, 1, plain=False) for _ in range(rng.randrange(3))] if rng.random() < .7 else ["nil"])
@@ -230,6 +231,10 @@ def run(rep, br, proofs, rng, tier):
             # a time value (instant and zone) arrives unchanged
             if out != "(ok (o %s %s))" % (hexs(b"time"), a[2]):
                 oracle_fail.append((c, "a time.Time value changed on the way in: %s became %s" % (vlib.unhex(a[2]).decode(), out[:200])))
+        elif c["kind"] in ("toobj", "toobjalt") and a[0] == "reg" and a[1] == hexs(b"json.RawMessage") and a[2] != "nil":
+            # a raw JSON message arrives byte for byte
+            if out != "(ok (o %s %s))" % (hexs(b"rawMessage"), a[2]):
+                oracle_fail.append((c, "a json.RawMessage changed on the way in: %r became %s" % (vlib.unhex(a[2]), out[:200])))
         elif c["kind"] in ("toobj", "toobjalt") and a[0] == "f32":
             import struct
             x = struct.unpack(">f", struct.pack(">I", int(a[1], 16)))[0]
